@@ -118,13 +118,14 @@ def render_rec(r):
         L += field_lines(h['k'].ljust(12), h['v'])
         for sk, sl in h['subs']:
             L += field_lines('  ' + sk.ljust(10), sl)
-    L.append('FEATURES             Location/Qualifiers')
-    for f in r['fts']:
-        ch = wrap_at(lprint(f['loc']), wrap_sizes(f))
-        L.append(' ' * 5 + f['key'].ljust(16) + ch[0])
-        L += [' ' * 21 + c for c in ch[1:]]
-        for q in f['quals']:
-            L += render_qual(q)
+    if r.get('features', True):
+        L.append('FEATURES             Location/Qualifiers')
+        for f in r['fts']:
+            ch = wrap_at(lprint(f['loc']), wrap_sizes(f))
+            L.append(' ' * 5 + f['key'].ljust(16) + ch[0])
+            L += [' ' * 21 + c for c in ch[1:]]
+            for q in f['quals']:
+                L += render_qual(q)
     if r.get('origin', True):
         L.append('ORIGIN')
         s = r['seq']
@@ -189,7 +190,8 @@ def rec_term(r):
                                                       for sk, sl in h['subs']])) for h in r['hdr']])
     fs = coq_list(['(mkafeat %s %s %s %s)' % (coq_bs(f['key']), l_term(f['loc']), coq_list([coq_nat(n) for n in wrap_sizes(f)]),
                                               coq_list([q_term(q) for q in f['quals']])) for f in r['fts']])
-    return '(mkarec %s %s %s %s %s)' % (hs, fs, coq_bs(r['seq']), coq_bool(bool(r.get('blank'))), coq_bool(bool(r.get('origin', True))))
+    return '(mkarec %s %s %s %s %s %s)' % (hs, fs, coq_bs(r['seq']), coq_bool(bool(r.get('blank'))), coq_bool(bool(r.get('origin', True))),
+                                           coq_bool(bool(r.get('features', True))))
 
 
 INVALID = 'out (VL [VB false; VI 0; VI 0; VB false; VL [VNone; VNone]])'
@@ -362,6 +364,16 @@ def exp_hdr(r):
             v = {'id': v}
             v[sk.lower()] = ' '.join(sl)
         d[k] = v
+    if not r.get('features', True) and r.get('origin', True):
+        # no FEATURES line: the reader never leaves the header, so ORIGIN is a header field and every residue line a sub-field of it
+        v, s = '', r['seq']
+        for i in range(0, len(s), 60):
+            row = s[i:i + 60]
+            groups = [row[j:j + 10] for j in range(0, len(row), 10)]
+            line = str(i + 1).rjust(9) + ' ' + ' '.join(groups)
+            v = {'id': v}
+            v[line[:12].strip().lower()] = ' '.join(groups)
+        d['origin'] = v
     d.pop('reference', None)
     ser = lambda x: [[k, ser(v)] for k, v in x.items()] if isinstance(x, dict) else x
     return ser(d)
@@ -374,6 +386,8 @@ def expected_error(case):
     if 'fts' in case['excl']:
         return False
     for r in case['recs']:
+        if not r.get('features', True):
+            continue
         if not r.get('origin', True):
             if r['fts']:
                 return None
@@ -412,7 +426,7 @@ def expected(case):
             if 'translation' in excl:
                 quals.pop('translation', None)
             fts.append([f['key'], [list(l) for l in ls], [[k, v] for k, v in quals.items()], rid])
-        origin = r.get('origin', True)
+        origin = r.get('origin', True) and r.get('features', True)     # residues and features are only found after a FEATURES line
         seq = '' if 'seq' in excl or not origin else r['seq'].upper()
         if 'fts' in excl or not origin:           # the exclude option removes exactly what it names; no ORIGIN line: no feature list
             recs.append([rid or '', seq, None, exp_hdr(r)])
@@ -612,6 +626,9 @@ def g_rec(rng, i):
         rec['origin'] = False
         if rng.random() < 0.6:
             rec['fts'] = []
+    if rng.random() < 0.04:       # no FEATURES line: the residues are dropped, the ORIGIN block lands in the header metadata
+        rec['features'] = False
+        rec['fts'] = []
     return rec
 
 
@@ -718,16 +735,22 @@ def nontrivial(case, iv):
                 marks.add('repeated-qualifier-key')
         if not r.get('origin', True):
             marks.add('no-origin')
+        if not r.get('features', True):
+            marks.add('no-features')
         if any(len({l[2] for l in sem(f['loc'])}) > 1 for f in r['fts'] if all(x[0] in 'prdbcjo' for x in _walk(f['loc']))):
             marks.add('both-strands')
         if len({h['k'] for h in r['hdr']}) != len(r['hdr']):
             marks.add('repeated-header-field')
-        for _f in ():
-            if False:
-                pass
+        for f in r['fts']:
             for q in f['quals']:
                 if q[0] == 't' and len(q[2]) > 1:
                     marks.add('multi-line-qualifier')
+                    if any(' ' in c for c in q[2]):
+                        marks.add('multi-line-text-with-blanks')
+                if q[0] == 't' and any('"' in c for c in q[2]):
+                    marks.add('quote-inside-value')
+                if q[0] == 'r' and re.fullmatch(r'[+-]?[0-9]+(_[0-9]+)*', q[2]):
+                    marks.add('unquoted-int-literal')
                 if q[0] == 'f':
                     marks.add('flag')
     return sorted(marks) or None
@@ -1132,13 +1155,16 @@ LEVEL_TEXT = ('Machine-checked Coq theorems about the Gallina model of sugar/_io
               'and read_fts returns the concatenated features. '
               'C10_view_spec spells the view out clause by clause (one record per record in order, id = first word of ACCESSION, residues '
               'upper-cased, header metadata, one feature per table entry with key as type, qualifier dict, seqid; a record without ORIGIN has '
-              'neither residues nor a feature list); C10_quals_dict characterises the qualifier dict completely, also for repeated keys (value of '
+              'neither residues nor a feature list, and neither has a record without a FEATURES line, whose ORIGIN block lands in the header metadata); C10_quals_dict characterises the qualifier dict completely, also for repeated keys (value of '
               'the last line with that key, keys in order of first use, flags collected under misc); C10_header_attrs the header metadata '
               '(continuation lines, LOCUS, nested sub-fields, REFERENCE dropped, id = first word of the accession entry, VERSION never used); '
               'C10_parse_print_loc/C10_single_loc_spec/C10_loc_sem/C10_feature_locs/C10_sort_locs give the INSDC location semantics (n, a..b, <, >, '
               'a.b, a^b, complement, join, order, any nesting; 0-based half-open, strand flip, defects from the regenerated Defect values; ordered '
               'along the strand); C10_parse_total: the location parser is total on arbitrary text (non-empty result, ValueError or IndexError; '
-              'the fuel of the model never runs out); '
+              'the fuel of the model never runs out); C10_reader_total: the whole modelled reader (iter_genbank, read_fts_genbank) on arbitrary text and any '
+              'exclude tuple returns a result or one of seven exception classes, never stuck; C10_remote_rejected: a location text containing ":" (remote reference) is rejected with '
+              'ValueError; C10_strand_order: complement distributes over join/order, and complement(join(a,b)), join(complement(b),complement(a)) '
+              'and complement(join(b,a)) give the same 5-prime to 3-prime ordered tuple (descending stops on the minus strand); '
               'C10_wrapped_loc/C10_split_toplevel cover wrapping at any break point and the nesting-aware comma split; C10_feature_table the whole '
               'feature-table entry (key line, wrapped location, qualifiers of every kind) from any reader state; C10_exclude_exact says exclude '
               'removes exactly what it names and that other names have no effect; C10_read_fts_agrees ties read_fts to read/iter_. Outside the '
@@ -1146,10 +1172,10 @@ LEVEL_TEXT = ('Machine-checked Coq theorems about the Gallina model of sugar/_io
               'well-formed has a feature on both strands: ValueError from that record; or it has features but no ORIGIN line: AssertionError at //; '
               'with fts excluded both kinds of record are inside the domain of C10_read_render and read normally). The tie of the model to the '
               'Python code (and the read/iter_/read_fts dispatch in sugar/_io/main.py) is differential testing on rendered and mutated files on every run.')
-LEVEL_NOTE = ('All 18 theorems are closed under the global context. Proved for all inputs: C10_read_render, C10_view_spec, C10_exclude_exact, '
+LEVEL_NOTE = ('All 21 theorems are closed under the global context. Proved for all inputs: C10_read_render, C10_view_spec, C10_exclude_exact, '
               'C10_read_fts_agrees, C10_parse_print_loc, C10_single_loc_spec, C10_loc_sem, C10_split_toplevel, C10_feature_locs, C10_sort_locs, '
               'C10_wrapped_loc, C10_feature_table (replaces the location-only C10_feature_table_locs_partial), C10_quals_dict, C10_header_attrs, '
-              'C10_parse_total, C10_read_errors, C10_err_class_spec; C10_read_render_box (finite box by computation, kept as a regression anchor, '
+              'C10_parse_total, C10_reader_total, C10_read_errors, C10_err_class_spec, C10_strand_order, C10_remote_rejected; C10_read_render_box (finite box by computation, kept as a regression anchor, '
               'subsumed by C10_read_render; formerly named ..._box_partial). Tested only (correspondence): that sugar.read / iter_ / read_fts behave '
               'as the modelled iter_genbank / read_fts_genbank (incl. the dispatch and BioBasket/FeatureList wrapping), and that the Python renderer '
               'equals the Coq renderer (length + hash per case). wf_C10 contains two checked side conditions that are implied by its character classes '
@@ -1162,10 +1188,15 @@ LEVEL_NOTE = ('All 18 theorems are closed under the global context. Proved for a
               'line are inside when they have no feature or fts is excluded (no residues, no feature list), features on both strands are inside '
               'when fts is excluded (the table is not parsed) and are an error class otherwise (ValueError compared by class; the AssertionError '
               'of the no-ORIGIN case comes from an assert statement, only "raises" is compared). Python recursion depth (about 1000 nested '
-              'join/complement) is not modelled. Remaining restrictions: multi-line quoted values are joined without a separator '
-              '(right for /translation) and contain no blanks; quoted values contain no double quote; a FEATURES line is required for '
-              'ORIGIN to be recognised (without it the residues are silently dropped and the ORIGIN lines become header sub-fields; modelled, compared '
-              'exactly on mutated files, not in the theorems); feature keys of at most 15 characters not starting with "origin", keys named like mapping methods '
+              'join/complement) is not modelled. Quoted values over several lines: every piece non-empty without blanks at its ends (blanks inside '
+              'are kept), joined WITHOUT a separator - right for /translation, but a /note wrapped at a blank as GenBank does loses that blank '
+              '(the pieces "a long" and "note" read "a longnote"; reported as suspicious, the property text only speaks of multi-line translations). Double quotes '
+              'inside a quoted value are kept as written (the INSDC escape of a quote by doubling it is not undone); a piece must not begin or end with a quote (the '
+              'reader strips ALL quotes at both ends of each line, so a value ending in an escaped quote loses the closing pair: C10_witness_quotes). Unquoted values '
+              'that int() accepts (-3, +5, 1_0, 007) are ints (in the domain since round 7). Records without a FEATURES line are in the domain of '
+              'C10_read_render (no feature lines, fewer than 10^8 residues): the reader never leaves its header state, the residues are silently '
+              'dropped and the ORIGIN line and every residue line become header entries (origin -> nested sub-fields), exactly as the view says '
+              '(suspicious behaviour, reported; real GenBank records always have FEATURES). Remaining restrictions: feature keys of at most 15 characters not starting with "origin", keys named like mapping methods '
               'excluded (F20). Mutated raw files (8% of the random stream) are outside every theorem but are compared EXACTLY with the model since '
               'round 7 (same value, or both raise), because the model follows the reader line by line on any Latin-1 text. '
               'The defect exclude_fts found by this check is fixed in /repo (da56cff) and in the domain. '
